@@ -111,6 +111,7 @@ func shapeOf(t types.Type, depth int) string {
 	if depth > 4 {
 		return "…"
 	}
+	t = types.Unalias(t) // `type point = int64` is int64
 	switch x := t.(type) {
 	case *types.Named:
 		o := x.Obj()
